@@ -8,7 +8,7 @@ kinds go to unexpected_lit_type; bool/char/String/PathBuf shapes.
 Not decided: the values themselves (std's and syn's parsers are the trusted base)."""
 import re
 
-from vlib import mir
+from vlib import resalg, mir
 from . import common
 
 META = dict(
@@ -25,6 +25,11 @@ def bodies_of(ctx, ty, method):
     key = "<%s as darling_core::from_meta::FromMeta>::%s" % (ty, method)
     f = ctx.fn(key, rule="C11.anchor")
     return f, ([f] + ctx.closures_of(f) if f else [])
+
+
+def private_helpers(ctx, f):
+    """private fns of the crate a hook may have been factored into (two levels)"""
+    return [h for h in ctx.local_callees(f, depth=2) if str(h.raw.get("vis", "")).startswith("Restricted")]
 
 
 def forbid_scan(ctx, rule, f, bodies):
@@ -50,41 +55,41 @@ def run(ctx):
         if not f:
             continue
         n += 1
-        calls = ctx.find_calls(f, "^" + re.escape(parser) + "$")
-        ok = len(calls) == 1 and mir.callee_info(calls[0][1]).get("targs") == [ty]
-        ctx.ob("C11.F.unquoted-parser", f.key, "%s::<%s>" % (parser.rsplit("::", 2)[-2] + "::base10_parse", ty), ok, "calls %s" % [(mir.callee_of(t), mir.callee_info(t).get("targs")) for _, t in calls])
-        for blk, t in calls:
-            ctx.requires("C11.G.unquoted-arm", f, blk, "base10_parse", [r"discr\(a1\)=%s$" % lit])
-            ctx.ob("C11.F.unquoted-operand", f.key, "literal operand", ctx.expr(f, t["args"][0]) == "(a1 as %s).0" % lit, ctx.expr(f, t["args"][0]))
-        # its error is converted with Error::from (keeps syn's span), never unwrapped
-        conv = [t for _, t in ctx.find_calls(f, r"^core::result::Result::<T, E>::map_err$") if "From<syn::error::Error>>::from" in ctx.expr(f, t["args"][1]) and parser in ctx.expr(f, t["args"][0])]
-        ctx.ob("C11.F.unquoted-error-converted", f.key, "map_err(Error::from)", len(conv) == 1, "%d conversions" % len(conv))
-        # quoted arm: from_string of the same type on the string's value
-        fs = ctx.find_calls(f, "^" + re.escape("<%s as darling_core::from_meta::FromMeta>::from_string" % ty) + "$")
-        ok = len(fs) == 1 and "syn::lit::LitStr::value((a1 as Str).0)" in ctx.expr(f, fs[0][1]["args"][0])
-        ctx.ob("C11.F.quoted-arm", f.key, "Self::from_string(&s.value())", ok, "%s" % [ctx.expr(f, t["args"][0]) for _, t in fs])
-        for blk, t in fs:
-            ctx.requires("C11.G.quoted-arm", f, blk, "from_string", [r"discr\(a1\)=Str$"])
-        # every other literal kind is rejected with the self-spanned constructor
-        rej = ctx.find_calls(f, r"^darling_core::error::Error::unexpected_lit_type$")
-        ok = len(rej) == 1 and ctx.expr(f, rej[0][1]["args"][0]) == "a1"
-        ctx.ob("C11.G.other-kinds-rejected", f.key, "unexpected_lit_type(value)", ok, "%d" % len(rej))
-        for blk, t in rej:
-            ctx.requires("C11.G.other-kinds-rejected", f, blk, "unexpected_lit_type", [r"discr\(a1\)=\('not-in', \('%s', 'Str'\)\)" % lit if lit < "Str" else r"discr\(a1\)=\('not-in', \('Str', '%s'\)\)" % lit])
-        forbid_scan(ctx, "C11.no-lossy-construct", f, bodies)
+        # from_value as a case table (helpers, `?`, explicit matches and combinators looked through):
+        #   Int/Float literal: Ok(v) of base10_parse::<ty>(lit), else Err(with_span(Error::from(e), value))
+        #   Str literal:       whatever <ty>::from_string(s.value()) says, errors spanned with the value
+        #   any other kind:    Err(with_span(unexpected_lit_type(value), value))
+        rows = resalg.raw_cases(ctx, f)
+        s_, _ = ctx.sym(f)
+        txt = sorted((sorted(resalg._atom(e, v, s_) for e, v in c), resalg.S.show(resalg.S.strip_transparent(v), s_)) for c, v in rows)
+        P = "%s((a1 as %s).0)" % (parser, lit)
+        FS = "<%s as darling_core::from_meta::FromMeta>::from_string(syn::lit::LitStr::value((a1 as Str).0))" % ty
+        kinds = tuple(sorted([lit, "Str"]))
+        want = sorted([
+            (sorted(["discr(a1)=%s" % lit, "is_ok(%s)=True" % P]), "core::result::Result::Ok{(%s as Ok).0}" % P),
+            (sorted(["discr(a1)=%s" % lit, "is_ok(%s)=False" % P]), "core::result::Result::Err{darling_core::error::Error::with_span(From::from((%s as Err).0), a1)}" % P),
+            (sorted(["discr(a1)=Str", "is_ok(%s)=True" % FS]), "core::result::Result::Ok{(%s as Ok).0}" % FS),
+            (sorted(["discr(a1)=Str", "is_ok(%s)=False" % FS]), "core::result::Result::Err{darling_core::error::Error::with_span((%s as Err).0, a1)}" % FS),
+            (["discr(a1)=('not-in', %r)" % (kinds,)], "core::result::Result::Err{darling_core::error::Error::with_span(darling_core::error::Error::unexpected_lit_type(a1), a1)}"),
+        ])
+        ctx.ob("C11.F.unquoted-parser", f.key, "from_value case table", txt == want, "cases %s" % [(c, v[:110]) for c, v in txt if (c, v) not in want][:3])
+        pc_ = [resalg.find_call(v, parser) or next((resalg.find_call(e, parser) for e, _ in c if resalg.find_call(e, parser)), None) for c, v in rows]
+        pc_ = [x for x in pc_ if x is not None]
+        ctx.ob("C11.F.unquoted-error-converted", f.key, "%s::<%s>" % (parser.rsplit("::", 2)[-2] + "::base10_parse", ty), bool(pc_) and all(tuple(x[3]) == (ty,) for x in pc_), "type arguments %s" % sorted({tuple(x[3]) for x in pc_}))
+        forbid_scan(ctx, "C11.no-lossy-construct", f, bodies + private_helpers(ctx, f))
         # from_string
         g, gb = bodies_of(ctx, ty, "from_string")
         if g:
-            ps = ctx.find_calls(g, r"^core::str::<impl str>::parse$")
-            ok = len(ps) == 1 and mir.callee_info(ps[0][1]).get("targs") == [ty] and ctx.expr(g, ps[0][1]["args"][0]) == "a1"
-            ctx.ob("C11.F.quoted-parser", g.key, "str::parse::<%s>(s)" % ty, ok, "%s" % [(mir.callee_info(t).get("targs"), ctx.expr(g, t["args"][0])) for _, t in ps])
-            rs = ctx.ret_values(g)
-            ok = len(rs) == 1 and rs[0].startswith("core::result::Result::<T, E>::map_err(core::str::<impl str>::parse(a1), closure ")
-            ctx.ob("C11.F.quoted-error-converted", g.key, "parse(..).map_err(|_| unknown_value(s))", ok, "returns %s" % [r[:120] for r in rs])
-            cl = [c for c in gb[1:]]
-            okc = len(cl) == 1 and [e for _, e in ctx.ret_exprs(cl[0])] == ["darling_core::error::Error::unknown_value(s)"] or len(cl) == 1 and re.match(r"^darling_core::error::Error::unknown_value\(", ([e for _, e in ctx.ret_exprs(cl[0])] or [""])[0])
-            ctx.ob("C11.F.quoted-error-kind", g.key, "unknown_value", bool(okc), "%s" % [ctx.ret_values(c) for c in cl])
-            forbid_scan(ctx, "C11.no-lossy-construct", g, gb)
+            rows = resalg.raw_cases(ctx, g)
+            s_, _ = ctx.sym(g)
+            txt = sorted((sorted(resalg._atom(e, v, s_) for e, v in c), resalg.S.show(resalg.S.strip_transparent(v), s_)) for c, v in rows)
+            PS = "core::str::<impl str>::parse(a1)"
+            want = sorted([(["is_ok(%s)=True" % PS], "core::result::Result::Ok{(%s as Ok).0}" % PS), (["is_ok(%s)=False" % PS], "core::result::Result::Err{darling_core::error::Error::unknown_value(a1)}")])
+            ctx.ob("C11.F.quoted-error-converted", g.key, "Ok(v) of s.parse(), else Err(unknown_value(s))", txt == want, "cases %s" % [(c, v[:110]) for c, v in txt])
+            pc_ = [resalg.find_call(v, "core::str::<impl str>::parse") or next((resalg.find_call(e, "core::str::<impl str>::parse") for e, _ in c if resalg.find_call(e, "core::str::<impl str>::parse")), None) for c, v in rows]
+            pc_ = [x for x in pc_ if x is not None]
+            ctx.ob("C11.F.quoted-parser", g.key, "str::parse::<%s>(s)" % ty, bool(pc_) and all(tuple(x[3]) == (ty,) for x in pc_), "type arguments %s" % sorted({tuple(x[3]) for x in pc_}))
+            forbid_scan(ctx, "C11.no-lossy-construct", g, gb + private_helpers(ctx, g))
         # the impl overrides exactly {from_string, from_value}
         core = ctx.core("on")
         imp = [i for i in core["impls"] if i["trait"] == "darling_core::from_meta::FromMeta" and i["self"] == ty]
@@ -115,7 +120,7 @@ def run(ctx):
             ctx.requires("C11.G.char-one-character", f, blk, "Ok(char)", [r"is_some\(.*Iterator>::next\(.*\)\)=True", r"is_some\(.*Iterator>::next\(.*\)\)=False"])
         nx = ctx.find_calls(f, r"core::str::iter::Chars<'_> as core::iter::traits::iterator::Iterator>::next$|Chars.*Iterator>::next$")
         ctx.ob("C11.G.char-two-probes", f.key, "chars.next() twice", len(nx) == 2, "%d next() calls" % len(nx))
-    for ty, conv in (("alloc::string::String", r"to_string\(a1\)|ToString>::to_string\(a1\)"), ("std::path::PathBuf", r"Into<.*>>::into\(a1\)|PathBuf.*from\(a1\)|into\(a1\)")):
+    for ty, conv in (("alloc::string::String", r"to_string\(a1\)|ToString>::to_string\(a1\)|<alloc::string::String as core::convert::From<&str>>::from\(a1\)|ToOwned>::to_owned\(a1\)"), ("std::path::PathBuf", r"Into<.*>>::into\(a1\)|PathBuf.*from\(a1\)|into\(a1\)")):
         f, _ = bodies_of(ctx, ty, "from_string")
         if f:
             rs = ctx.ret_values(f)
